@@ -45,7 +45,7 @@ CHECKS = {
             dict(name="stress", run="TestC10Stress", rapid=False, race=True,
                  args=dict(quick=["-c10.histories=200", "-c10.stall=20s"], thorough=["-c10.histories=3000"]), shards=dict(quick=1, thorough=8)),
             dict(name="cbgate", run="TestC10Callback", checks=dict(quick=3000, thorough=20000), shards=dict(quick=1, thorough=8)),
-            dict(name="burst", run="TestC10Burst", checks=dict(quick=1500, thorough=10000), shards=dict(quick=1, thorough=8),
+            dict(name="burst", run="TestC10Burst", checks=dict(quick=1000, thorough=10000), shards=dict(quick=1, thorough=8),
                  args=dict(quick=["-c10.stall=20s"], thorough=[])),
             dict(name="burst-race", run="TestC10Burst", race=True, checks=dict(quick=250, thorough=3000), shards=dict(quick=1, thorough=4),
                  args=dict(quick=["-c10.burstname=burst-race", "-c10.stall=20s"], thorough=["-c10.burstname=burst-race"])),
@@ -63,7 +63,10 @@ CHECKS = {
                     "the leaf set of each target is prefix-free by construction; binaries are built with the default go toolchain and -tags verif"),
         rule=("cases are (configuration, per-target stream); non-trivial = the streams carry >=2 value kinds, >=1 keyed or origin-bearing path and >=1 delete after the sync that removes a leaf; distinct = distinct hash of the scenario"),
         assumptions=COMMON + ["loopback networking is available in the sandbox", "collector and CLI binaries are rebuilt from /repo's working tree by the engine (go build -mod=readonly)"],
-        parts=[dict(name="random", run="TestC01Random", checks=dict(quick=36, thorough=150), shards=dict(quick=1, thorough=8), timeout=dict(quick=600, thorough=1800))],
+        parts=[dict(name="random", run="TestC01Random", checks=dict(quick=36, thorough=150), shards=dict(quick=1, thorough=8), timeout=dict(quick=600, thorough=1800)),
+               dict(name="slow", run="TestC01Slow", checks=dict(quick=10, thorough=60), shards=dict(quick=2, thorough=8), timeout=dict(quick=600, thorough=1800)),
+               dict(name="break", run="TestC01Break", checks=dict(quick=6, thorough=60), shards=dict(quick=3, thorough=8), timeout=dict(quick=600, thorough=1800),
+                    args=dict(quick=["-c01.maxfill=6000", "-c01.maxstorm=4"], thorough=["-c01.maxfill=12000", "-c01.maxstorm=8"]))],
     ),
     "C12": dict(
         engine="ingestfuzz",
